@@ -21,17 +21,17 @@ TECH = {
     "C03": "Hypothesis-generated matrices with EXHAUSTIVE enumeration of all windows in [0,n]^4 (engines and API) vs. numpy slice of the dense completion; object-reuse histories",
     "C04": "Hypothesis-generated bin tables with EXHAUSTIVE enumeration of all (start,end) on small chromosomes vs. linear-scan overlap oracle; rename histories",
     "C05": "Hypothesis record multisets built from bin-edge positions vs. per-record linear-scan oracle, through API, cload pairs, load coo/bg2 and the tabix loader",
-    "C06": "Hypothesis partitions/orders/buffers of a record multiset vs. dict-sum oracle (metamorphic: result independent of partition) + schema validator + temp-dir listing",
+    "C06": "Hypothesis partitions/orders/buffers of a record multiset vs. dict-sum oracle (metamorphic: result independent of partition) + schema validator + temp-dir listing; same through cooler load; first call of a fresh interpreter in a subprocess",
     "C07": "Hypothesis input sets and merge trees vs. per-pixel aggregate oracle (associativity, order independence); incompatible-pair grammar; dtype-limit cases",
     "C08": "Hypothesis coolers x factors x chunk sizes x workers vs. block-aggregation model; metamorphic chains (k1 then k2 = k1*k2, coarsen/merge commute); URI-reuse histories",
     "C09": "Hypothesis base sets and target ladders vs. model coarsening (validity predicate for inconsistent bases); CLI resolution-spec grammar incl. boundary genomes",
-    "C10": "Hypothesis matrices x option vectors; validity predicate: derived flatness bound on true row sums + independent three-valued filter reference; CLI blacklist route",
-    "C11": "Differential testing: chunk sizes x harness-owned map (adversarially permuted completion order, real pools) vs. unchunked run and dense IC reference; span-tiling invariant via recording map",
+    "C10": "Hypothesis matrices (integer and real-valued) x option vectors incl. options left to documented defaults; validity predicate: derived flatness bound on true row sums + independent three-valued filter reference; CLI blacklist / --force route",
+    "C11": "Differential testing: chunk sizes x harness-owned map (adversarially permuted completion order, real pools) vs. unchunked run and dense IC reference (weights and reported statistics); span-tiling invariant via recording map; CLI stored statistics and --stdout",
     "C12": "Hypothesis windows x weight columns x output forms vs. raw * outer(w_rows, w_cols) oracle, NaN-position equality; late-weight histories",
     "C13": "Fault enumeration: for each Hypothesis-generated chunk stream EVERY (fault kind x chunk x position) and iterator failure before every chunk (+ hard exit in a forked child), oracle = recognition/listing/neighbour digests",
     "C14": "Hypothesis selectors (range spellings x column subsets) and annotate cases (orders, partial tables) vs. model tables; integer-encoded and many-contig files",
-    "C15": "Hypothesis RuleBasedStateMachine over two files (create a/w, cp, mv, ln hard/soft/external, API and CLI) vs. path->content model with link resolution",
-    "C16": "Hypothesis dump option subsets vs. model rows + library query; dump->load round trip; permuted column layouts vs. C05's record model",
+    "C15": "Hypothesis RuleBasedStateMachine over two files (create a/w via API and cooler load, cp, mv, ln hard/soft/external incl. links to links, API and CLI) vs. path->content model with link resolution; recognition probes incl. dangling links",
+    "C16": "Hypothesis dump option subsets vs. model rows + library query; EXHAUSTIVE pairs of bin-aligned -r/-r2 ranges with/without --fill-lower; dump->load round trip; permuted column layouts (pairs, coo, bg2, tabix) vs. C05's record model",
     "C17": "Hypothesis cell sets (names, per-cell matrices and bin tables) vs. per-cell model; HDF5 object-address identity for the shared bin columns; path-reuse histories",
     "C18": "Hypothesis chains of injective renaming maps (swaps, cycles, longer names) with checks after every step on the same and a reopened object; deep-digest invariance; enum-header boundary",
     "C19": "Grammar-based Hypothesis generation with exact integer oracle + exhaustive numeral enumeration + mutation fuzzing against an independent reference classifier + atheris differential target",
